@@ -206,6 +206,12 @@ func (r *Recorder) violate(prop, kind, cause, format string, args ...interface{}
 		// this run: core safety violations attributed to C09 may be its consequence.
 		cause += "+F4"
 	}
+	if prop == "C06" && r.c.Cfg.SnapThreshold > 0 && r.anyTaint["F2"] && !strings.Contains(cause, "+F2") {
+		// Known finding F2 breaks log matching itself (AppendEntries accepted over a stale log
+		// against the boundary InstallSnapshot published): in a run with snapshots in which a node
+		// showed F2's signature, violations of the AppendEntries contract may be its consequence.
+		cause += "+F2"
+	}
 	if (prop == "C10" || prop == "C11") && r.c.Cfg.Membership && r.anyTaint["F4"] && kind != "snapshot-config" && !strings.Contains(cause, "+F4") {
 		// Snapshots on top of a history that F4 has already split (a C09 divergence was reported
 		// in this run): their content and labels are judged against one of the two histories.
@@ -1086,6 +1092,12 @@ func (r *Recorder) logAppended(inc *Incarnation, es []*raft.LogEntry) {
 		m.Entries = append(m.Entries, me)
 	}
 	m.Unsynced = 0 // a returned append fsynced the whole file
+	if ctx := r.ctxByTask[r.c.Sim.Cur()]; ctx != nil && ctx.Msg.Kind == KindAE && inc.restoring > 0 {
+		// Signature of F2, taken at the append (the checks below already see its consequence):
+		// entries accepted against the boundary that InstallSnapshot published before releasing
+		// the lock, while the stale log is still in place.
+		r.setTaint(inc.Node, "F2")
+	}
 	r.ev("append %s %d..%d term=%d", inc.Name(), es[0].Index, es[len(es)-1].Index, es[len(es)-1].Term)
 	if ctx := r.ctxByTask[r.c.Sim.Cur()]; ctx != nil {
 		ctx.appended += len(es)
